@@ -77,6 +77,9 @@ package mvs
 //@ func (*mvs.Resolver).resolveProject variant edges
 //@   requires r != nil
 //@   modifies heap, smap
+//@   callsite LoadOrStore: assert publishes-a-summary: $2.(*mvs.mvsProject) != nil
+//@   callsite LoadOrStore: assert publishes-its-edges: arr($2.(*mvs.mvsProject).Requirements) == arr(reqs) && len($2.(*mvs.mvsProject).Requirements) == len(reqs)
+//@   callsite LoadOrStore: assert publishes-its-version: $2.(*mvs.mvsProject).Version.Path == p.Path && $2.(*mvs.mvsProject).Version.Version == p.Version
 //@   loop 0: invariant one-edge-per-name: len(reqs) == rangeindex + 1 && config != nil
 //@   loop 0: step edge-is-the-requirement: when true ensures len(reqs) == old(len(reqs)) + 1 && (has(config.Requirements, name) ==> (reqs[old(len(reqs))].Path == config.Requirements[name].Path && reqs[old(len(reqs))].Version == config.Requirements[name].Version))
 
